@@ -426,7 +426,8 @@ namespace rvutils::pbo
             do
             {
                 file.read(buff, buff_size);
-                for (size_t i = 0; i < buff_size; i++)
+                auto got = (size_t)file.gcount();
+                for (size_t i = 0; i < got; i++)
                 {
                     if (buff[i] == '\0')
                     {
